@@ -279,7 +279,10 @@ class KeyProcessor:
                 self.before_key_press.fire()
 
             try:
-                self._process_coroutine.send(key_press)
+                if is_cpr:
+                    self._handle_cpr_response(key_press)
+                else:
+                    self._process_coroutine.send(key_press)
             except Exception:
                 # If for some reason something goes wrong in the parser, (maybe
                 # an exception was raised) restart the processor for next time.
@@ -293,6 +296,33 @@ class KeyProcessor:
         # Skip timeout if the last key was flush.
         if not is_flush:
             self._start_timeout()
+
+    def _handle_cpr_response(self, key_press: KeyPress) -> None:
+        """
+        Deliver a cursor position report to its binding.
+
+        A report is an answer from the terminal, not a typed key. It can arrive
+        at any moment, also between the keys of a multi-key binding (e.g.
+        after `Escape`) or right after quoted-insert. Don't pass it through the
+        key buffer: that would flush the pending keys (the next key would be
+        applied on its own) or hand the report to a `Keys.Any` binding, which
+        inserts its data as text. The repetition argument and the "previous
+        key" bookkeeping are left alone as well.
+        """
+        for binding in reversed(
+            self._bindings.get_bindings_for_keys((Keys.CPRResponse,))
+        ):
+            if binding.keys == (Keys.CPRResponse,) and binding.filter():
+                binding.call(
+                    KeyPressEvent(
+                        weakref.ref(self),
+                        arg=None,
+                        key_sequence=[key_press],
+                        previous_key_sequence=self._previous_key_sequence,
+                        is_repeat=False,
+                    )
+                )
+                break
 
     def empty_queue(self) -> list[KeyPress]:
         """
